@@ -151,11 +151,14 @@ class AbstractBlob:
         finally:
             self.writing.clear()
 
-    def close(self):
+    def close_writers(self):
         while self.writers:
             _, writer = self.writers.popitem()
             if writer and writer.finished and not writer.finished.done() and not self.loop.is_closed():
                 writer.finished.cancel()
+
+    def close(self):
+        self.close_writers()
         while self.readers:
             reader = self.readers.pop()
             if reader:
